@@ -19,6 +19,14 @@ theorem run_length (i : Inst) (hpos : 0 < i.n) {as : List Nat} {s : State}
     (h : Run env i (env.reset i) as s) : env.done i s = true ↔ as.length = i.n :=
   availEnv.run_length hpos h
 
+/-- (2') for EVERY batch shape `bs` (flat `[B]`, multi-dimensional `[B1, B2]`, …) the mask width allocated by
+`_reset` (`resetWidth`, the extracted size expression applied to the shape `bs ++ [n, 2]` of `locs`) is the
+number of cities, and an episode is finished exactly after that many steps -/
+theorem run_length_any_batch_shape (bs : List Nat) (i : Inst) (hpos : 0 < i.n) {as : List Nat} {s : State}
+    (h : Run env i (env.reset i) as s) :
+    resetWidth bs i = env.nAct i ∧ (env.done i s = true ↔ as.length = resetWidth bs i) := by
+  rw [resetWidth_eq]; exact ⟨rfl, run_length i hpos h⟩
+
 /-- (3) a finished instance never becomes unfinished again, whatever node is stepped -/
 theorem done_stable (i : Inst) (hpos : 0 < i.n) {s : State} (h : Reach env i s)
     (hd : env.done i s = true) (a : Nat) : env.done i (env.step i s a) = true :=
